@@ -276,6 +276,12 @@ shared_ptr<IProperty> SectionHDF5::createProperty(const string &name, const Vari
 
 
 shared_ptr<IProperty> SectionHDF5::createProperty(const string &name, const vector<Variant> &values) {
+    for (const Variant &v : values) {
+        // reject mixed value types before the property is created
+        if (v.type() != values[0].type()) {
+            throw std::invalid_argument("Inconsistent DataTypes!");
+        }
+    }
     NDSize shape(1, values.size());
     shared_ptr<IProperty> p = createProperty(name, values[0].type(), shape);
     p->values(values);
